@@ -17,7 +17,7 @@ package main
 //
 // observation: one token per step that observes something
 //         U -> u=<status>:<grant|->:<cost>:<resDelta>:<ccr seq consumed|0|?>:<elapsed ms>:<done>
-//         C -> c=<established connections to the two peers>:<goroutines above baseline, bucketed>
+//         C -> c=<established connections to the two peers>:<goroutines above baseline, bucketed>:<the same, raw>:<go-diameter watchdog goroutines alive>
 //
 // Every account-balance request of the scenario tops the reservation up by an amount that is a sum of a run
 // of distinct powers of two, so the amount identifies the request whose answer the CHF acted upon.
@@ -356,7 +356,14 @@ func runPeer(line string, t []string) string {
 			case g > 12:
 				gb = ">12"
 			}
-			out = append(out, fmt.Sprintf("c=%d:%s:%d", peerConns()-baseConns, gb, g))
+			buf := make([]byte, 4<<20)
+			stacks := string(buf[:runtime.Stack(buf, true)])
+			if os.Getenv("VERIF_GDUMP") != "" {
+				fmt.Fprintf(os.Stderr, "%s\n", stacks)
+			}
+			// go-diameter's per-connection watchdog tasks still running (no connection is open by now)
+			wd := strings.Count(stacks, "sm.(*Client).watchdog(")
+			out = append(out, fmt.Sprintf("c=%d:%s:%d:%d", peerConns()-baseConns, gb, g, wd))
 		default:
 			return "bad-op"
 		}
@@ -378,6 +385,18 @@ func genPeer(o genOpts, w *bufio.Writer) {
 	if o.tier == "thorough" {
 		scen("N1000 C")
 		scen("N300 C N300 C")
+	}
+	// C18: requests whose answer does not arrive in time complete as well: nothing may stay behind for them either
+	scen(fmt.Sprintf("A%d U100 A%d U228 A%d U484 A%d U996 W2000 C", late, late, late, never))
+	scen(fmt.Sprintf("R%d U100 R%d U228 R0 R0 R%d U484 W2000 C", late, late, late))
+	if o.tier == "thorough" {
+		var sb []string
+		vol := 100
+		for j := 0; j < 12; j++ {
+			sb = append(sb, fmt.Sprintf("A%d U%d", late, vol))
+			vol += 128 << uint(j)
+		}
+		scen(strings.Join(sb, " ") + " W2000 C")
 	}
 	// C19: an account-balance answer later than the client's timeout, then a prompt peer
 	scen(fmt.Sprintf("A%d U100 U228 C", late))                    // next request at once: the late answer arrives while it is over
